@@ -30,6 +30,11 @@ def wrap(wrapper, target):
         "garg": {"k": "user", "n": "Gen", "args": [t]},
         "garg_unknown": {"k": "user", "n": "Unknown", "args": [t]},
         "garg_nested": {"k": "user", "n": "Gen", "args": [{"k": "vec", "e": t}]},
+        # composed containers (MC_C11!Wrappers2)
+        "option_vec": {"k": "option", "e": {"k": "vec", "e": t}},
+        "vec_option": {"k": "vec", "e": {"k": "option", "e": t}},
+        "option_mapv": {"k": "option", "e": {"k": "map", "key": "String", "val": t}},
+        "option_garg": {"k": "option", "e": {"k": "user", "n": "Gen", "args": [t]}},
     }[wrapper]
 
 
@@ -43,11 +48,11 @@ def build_program(nodes, edges):
     Returns (items, nodes', edges') - Gen is appended as an extra node when a garg wrapper is used."""
     nodes = [dict(n) for n in nodes]
     edges = [dict(e) for e in edges]
-    if any(e["wrapper"] in ("garg", "garg_nested") for e in edges):
+    if any(e["wrapper"] in ("garg", "garg_nested", "option_garg") for e in edges):
         gi = len(nodes)
         nodes.append({"name": "Gen", "kind": "generic_struct", "renamed": False})
         for e in list(edges):
-            if e["wrapper"] in ("garg", "garg_nested"):
+            if e["wrapper"] in ("garg", "garg_nested", "option_garg"):
                 edges.append({"src": e["src"], "dst": gi, "carrier": e["carrier"], "wrapper": "direct", "implicit": True})
     items = []
     for i, n in enumerate(nodes):
@@ -63,7 +68,13 @@ def build_program(nodes, edges):
             items.append({"kind": "struct", "name": n["name"], "attrs": at, "fields": fields or [{"name": "x", "ty": "u32"}]})
         elif k == "tagged_enum":
             vs = [{"name": "U0", "kind": "unit"}]
+            together = [e for e in out if e.get("same_variant")]          # several references as fields of ONE struct variant
+            if together:
+                vs.append({"name": "Sall", "kind": "struct", "fields": [{"name": f"x{j}", "ty": wrap(e["wrapper"], nodes[e["dst"]]["name"]), "attrs": ovr_attr(e)}
+                                                                       for j, e in enumerate(together)]})
             for j, e in enumerate(out):
+                if e.get("same_variant"):
+                    continue
                 t = wrap(e["wrapper"], nodes[e["dst"]]["name"])
                 if e["carrier"] == "vfield":
                     vs.append({"name": f"S{j}", "kind": "struct", "fields": [{"name": "x", "ty": t, "attrs": ovr_attr(e)}]})
@@ -226,7 +237,8 @@ def random_program(rng, n, cyclic):
             if nodes[b]["kind"] == "const":
                 continue
             carrier = {"struct": "field", "alias": "alias", "const": "const"}.get(k) or rng.choice(["newtype", "vfield"])
-            wrappers = ["direct", "array"] if k == "const" else ["direct", "vec", "option", "mapk", "mapv", "array", "slice", "garg", "garg_unknown", "garg_nested"]
+            wrappers = ["direct", "array"] if k == "const" else ["direct", "vec", "option", "mapk", "mapv", "array", "slice", "garg", "garg_unknown", "garg_nested",
+                                                                    "option_vec", "vec_option", "option_mapv", "option_garg"]
             ovr = rng.choice(["scala", "typescript", "go"]) if carrier in ("field", "vfield") and rng.random() < 0.15 else "none"
             edges.append({"src": a, "dst": b, "carrier": carrier, "wrapper": rng.choice(wrappers), "ovr": ovr})
     return nodes, edges
@@ -290,6 +302,16 @@ def run(chk):
     chk.sample({"program": render.program(build_program(*programs[7][:2])[0])})
     events, emeta = run_programs(chk, programs)
     validate(chk, events, emeta, "placements")
+
+    # (d) three-item programs: two references in one item, through composed containers (MC_C11!Progs2)
+    programs = []
+    for c in [c for c in res.replays if c["mode"] == "prog2"]:
+        nodes = [{"name": "Aaa1", "kind": akind[c["carrier"]], "renamed": False}, {"name": "Bbb2", "kind": "struct", "renamed": False}, {"name": "Ccc3", "kind": "struct", "renamed": False}]
+        second = 1 if c["same_target"] else 2
+        programs.append((nodes, [{"src": 0, "dst": 1, "carrier": c["carrier"], "wrapper": c["w1"], "ovr": "none", "same_variant": c["carrier"] == "vfield"},
+                                 {"src": 0, "dst": second, "carrier": c["carrier"], "wrapper": c["w2"], "ovr": "none", "same_variant": c["carrier"] == "vfield"}], None))
+    events, emeta = run_programs(chk, programs)
+    validate(chk, events, emeta, "two-references")
 
     # impl -> spec: random larger programs
     rng = chk.rng
